@@ -352,61 +352,150 @@ theorem drop_isEmpty_false (args : List Rep) (n : Nat) (h : args.length > n) : (
   | nil => have := List.drop_eq_nil_iff.mp hd; omega
   | cons _ _ => rfl
 
-/-- **Packing by callBin**, partial: what the host function's parameters receive is what Go prescribes, for every number
-    of fixed parameters and every argument list — with `...` (CallSlice: the slice itself), without (a new slice of the
-    extra arguments) — provided a variadic parameter without `...` gets at least one argument -/
-theorem variadic_pack_correct_partial (isVariadic ellipsis : Bool) (nFixed : Nat) (args : List Rep)
-    (hd : isVariadic = false ∨ ellipsis = true ∨ args.length > nFixed) :
-    packBinY E isVariadic ellipsis nFixed args = goPack isVariadic ellipsis nFixed args := by
+/-- the helper callVariadic, spelled out: CallSlice with the arguments and a nil slice when a variadic function gets exactly
+    its fixed arguments, reflect.Value.Call otherwise -/
+theorem callVariadic_rule (isVariadic : Bool) (nFixed : Nat) (args : List Rep) :
+    callVariadicY E isVariadic nFixed args =
+      if isVariadic && decide (args.length = nFixed) then args ++ [Rep.nil] else reflectCall isVariadic nFixed args := by
   cases isVariadic with
-  | false => cases ellipsis <;> simp [packBinY, goPack, E, Expected.C07.facts, CallKind.run, reflectCall, reflectCallSlice]
+  | false => simp [callVariadicY, E, Expected.C07.facts, CallKind.runR]
   | true =>
-    cases ellipsis with
-    | true => simp [packBinY, goPack, E, Expected.C07.facts, CallKind.run, reflectCallSlice]
-    | false =>
-      have h : args.length > nFixed := by
-        rcases hd with h | h | h
-        · cases h
-        · cases h
-        · exact h
-      simp only [packBinY, goPack, E, Expected.C07.facts, CallKind.run, reflectCall, Bool.false_eq_true, if_false, if_true,
-        Bool.not_true, Bool.or_false]
-      rw [drop_isEmpty_false args nFixed h]
+    have h : ((args.length : Int) = (nFixed : Int)) ↔ args.length = nFixed := by omega
+    by_cases hl : args.length = nFixed <;>
+      simp [callVariadicY, E, Expected.C07.facts, CallKind.runR, Cmp.holds, reflectCallSlice, h, hl]
+
+/-- … which is Go's packing of a call without `...`, for every number of fixed parameters and every argument list -/
+theorem callVariadic_eq_goPack (isVariadic : Bool) (nFixed : Nat) (args : List Rep)
+    (hd : isVariadic = true → args.length ≥ nFixed) :
+    callVariadicY E isVariadic nFixed args = goPack isVariadic false nFixed args := by
+  rw [callVariadic_rule]
+  cases isVariadic with
+  | false => simp [goPack, reflectCall]
+  | true =>
+    have hge := hd rfl
+    by_cases hl : args.length = nFixed
+    · have ht : args.take nFixed = args := List.take_of_length_le (by omega)
+      have hdrop : args.drop nFixed = [] := List.drop_eq_nil_iff.mpr (by omega)
+      simp [goPack, hl, ht, hdrop]
+    · have hgt : args.length > nFixed := by omega
+      simp only [goPack, reflectCall, hl, decide_false, Bool.and_false, Bool.false_eq_true, if_false, if_true, Bool.not_true,
+        Bool.or_false]
+      rw [drop_isEmpty_false args nFixed hgt]
       simp
 
-/-- `F(a)` with `F(x int, rest ...int)`: reflect.Call builds an EMPTY slice, a compiled caller passes nil (finding F07-2) -/
-theorem variadic_empty_witness :
-    packBinY E true false 1 [.int 5] = [.int 5, .tuple .nil] ∧ goPack true false 1 [.int 5] = [.int 5, .nil] := ⟨rfl, rfl⟩
+theorem selectCall_E (isVariadic ellipsis : Bool) :
+    selectCall isVariadic ellipsis E.callArms =
+      (if ellipsis then CallKind.callSlice else if isVariadic then .callVariadic else .call) ∧
+    selectCall isVariadic ellipsis E.fvArms =
+      (if ellipsis then CallKind.callSlice else if isVariadic then .callVariadic else .call) := by
+  cases isVariadic <;> cases ellipsis <;> exact ⟨rfl, rfl⟩
 
-def VariadicPackFull : Prop :=
+/-- the statement every call path has to satisfy: what the callee's parameters receive is what Go prescribes — with `...`
+    the slice itself, without a NEW slice of the extra arguments, NIL when there are none — for every number of fixed
+    parameters and every argument list Go's typing allows -/
+def VariadicPackFull (pack : Bool → Bool → Nat → List Rep → List Rep) : Prop :=
   ∀ (isVariadic ellipsis : Bool) (nFixed : Nat) (args : List Rep), args.length ≥ nFixed →
-    packBinY E isVariadic ellipsis nFixed args = goPack isVariadic ellipsis nFixed args
+    pack isVariadic ellipsis nFixed args = goPack isVariadic ellipsis nFixed args
 
-theorem variadic_pack_full_fails : ¬ VariadicPackFull := by
-  intro h
-  have := h true false 1 [.int 5] (by decide)
-  rw [variadic_empty_witness.1, variadic_empty_witness.2] at this
-  simp at this
+/-- **Packing by callBin** (a host function or a method of a host value called by the script, in every context: the
+    same `callFn` serves the direct call, the `go` statement, the condition and the three result contexts), FULL: with `...`
+    CallSlice hands over the slice itself; without, the helper callVariadic passes a nil slice when there is no variadic
+    argument (repair 8600fa9 of F07-2) and lets reflect.Value.Call build the slice of the extra arguments otherwise. -/
+theorem variadic_pack_correct_bin : VariadicPackFull (packBinY E) := by
+  intro isVariadic ellipsis nFixed args hge
+  unfold packBinY
+  rw [(selectCall_E isVariadic ellipsis).1]
+  cases ellipsis with
+  | true => cases isVariadic <;> simp [CallKind.run, CallKind.runR, reflectCallSlice, goPack]
+  | false =>
+    cases isVariadic with
+    | true => simpa [CallKind.run] using callVariadic_eq_goPack true nFixed args (fun _ => hge)
+    | false => simp [CallKind.run, CallKind.runR, reflectCall, goPack]
 
-/-- **A deferred host call** is run by runCfg with `Call`: right without `...` … -/
-theorem defer_pack_partial (isVariadic : Bool) (nFixed : Nat) (args : List Rep)
-    (hd : isVariadic = false ∨ args.length > nFixed) :
-    packDeferY E isVariadic nFixed args = goPack isVariadic false nFixed args := by
-  cases isVariadic with
-  | false => simp [packDeferY, goPack, E, Expected.C07.facts, CallKind.run, reflectCall]
+/-- **Packing by `call` when the function value is a host function** (`fv := hp.F; fv(…)`, a method value `mv := c.M`, a
+    function returned by the host), FULL: the same three arms -/
+theorem variadic_pack_correct_fn_value : VariadicPackFull (packFnValueY E) := by
+  intro isVariadic ellipsis nFixed args hge
+  unfold packFnValueY
+  rw [(selectCall_E isVariadic ellipsis).2]
+  cases ellipsis with
+  | true => cases isVariadic <;> simp [CallKind.run, CallKind.runR, reflectCallSlice, goPack]
+  | false =>
+    cases isVariadic with
+    | true => simpa [CallKind.run] using callVariadic_eq_goPack true nFixed args (fun _ => hge)
+    | false => simp [CallKind.run, CallKind.runR, reflectCall, goPack]
+
+/-- … and therefore for the arms regenerated from the current source -/
+theorem variadic_pack_generated :
+    VariadicPackFull (packBinY Generated.C07.facts) ∧ VariadicPackFull (packFnValueY Generated.C07.facts) := by
+  rw [facts_tie]; exact ⟨variadic_pack_correct_bin, variadic_pack_correct_fn_value⟩
+
+/-- **A deferred call** (`defer hp.F(…)` through callBin, `defer f(…)` through `call`; `viaBin` says which), FULL: the record
+    stored by the defer statement holds the function — wrapped by deferCallSlice when the call has an ellipsis (repair eef6ac5
+    of F07-4) — and the copied arguments; runCfg → runDeferred calls it with callVariadic. What the callee's parameters
+    receive is what Go prescribes for the call as written: the ellipsis is preserved, and a variadic parameter without
+    arguments is nil. -/
+theorem defer_pack_correct (viaBin : Bool) : VariadicPackFull (packDeferY E viaBin) := by
+  intro isVariadic ellipsis nFixed args hge
+  cases ellipsis with
   | true =>
-    have h : args.length > nFixed := by
-      rcases hd with h | h
-      · cases h
-      · exact h
-    simp only [packDeferY, goPack, E, Expected.C07.facts, CallKind.run, reflectCall, Bool.false_eq_true, if_false, if_true,
-      Bool.not_true, Bool.or_false]
-    rw [drop_isEmpty_false args nFixed h]
-    simp
+    have hw : (true && (if viaBin then E.deferWrapBin else E.deferWrapCall)) = true := by cases viaBin <;> rfl
+    have hv : E.deferWrapVariadic = false := rfl
+    simp only [packDeferY, hw, if_true, hv, Bool.and_false]
+    have hc : E.deferCall = .callVariadic := rfl
+    have hk : E.deferWrapKind = .callSlice := rfl
+    rw [hc, hk]
+    simp only [CallKind.run]
+    rw [callVariadic_rule]
+    simp [CallKind.runR, reflectCallSlice, reflectCall, goPack]
+  | false =>
+    have hc : E.deferCall = .callVariadic := rfl
+    simp only [packDeferY, Bool.false_and, Bool.false_eq_true, if_false, hc, CallKind.run]
+    exact callVariadic_eq_goPack isVariadic nFixed args (fun _ => hge)
 
-/-- … and wrong with: `defer F(xs...)` packs the slice into a new slice (finding F07-4) -/
-theorem defer_spread_witness (xs : RepL) :
-    packDeferY E true 0 [.tuple xs] = [.tuple (.cons (.tuple xs) .nil)] ∧ goPack true true 0 [.tuple xs] = [.tuple xs] := ⟨rfl, rfl⟩
+theorem defer_pack_generated (viaBin : Bool) : VariadicPackFull (packDeferY Generated.C07.facts viaBin) := by
+  rw [facts_tie]; exact defer_pack_correct viaBin
+
+/-- non-vacuity: `defer hp.F(7, xs...)` and `defer hp.F(7)` with `F(a int, rest ...int)` -/
+example (xs : RepL) : packDeferY E true true true 1 [.int 7, .tuple xs] = [.int 7, .tuple xs] ∧
+    packDeferY E true true false 1 [.int 7] = [.int 7, .nil] ∧
+    packDeferY E false true false 1 [.int 7, .int 8] = [.int 7, .tuple (.cons (.int 8) .nil)] := ⟨rfl, rfl, rfl⟩
+
+/-- What the extractor reads from a tree WITHOUT the two repairs (8600fa9, eef6ac5 reverted): no `variadic >= 0` arm, the
+    deferred record called with reflect.Value.Call and never wrapped. -/
+def preRepair : Facts :=
+  { E with callArms := [⟨.ellipsis, .callSlice⟩, ⟨.always, .call⟩], fvArms := [⟨.ellipsis, .callSlice⟩, ⟨.always, .call⟩],
+           deferCall := .call, deferWrapBin := false, deferWrapCall := false }
+
+/-- regression F07-2 — `F(5)` with `F(x int, rest ...int)`: through reflect.Value.Call the callee received an EMPTY slice;
+    with the `callVariadic` arm it receives nil, as from a compiled caller -/
+theorem variadic_empty_regression :
+    packBinY preRepair true false 1 [.int 5] = [.int 5, .tuple .nil] ∧
+    packBinY E true false 1 [.int 5] = [.int 5, .nil] ∧ goPack true false 1 [.int 5] = [.int 5, .nil] ∧
+    packFnValueY preRepair true false 1 [.int 5] = [.int 5, .tuple .nil] ∧
+    packFnValueY E true false 1 [.int 5] = [.int 5, .nil] ∧
+    packDeferY preRepair true true false 1 [.int 5] = [.int 5, .tuple .nil] ∧
+    packDeferY E true true false 1 [.int 5] = [.int 5, .nil] := ⟨rfl, rfl, rfl, rfl, rfl, rfl, rfl⟩
+
+/-- regression F07-4 — `defer F(xs...)`: called with reflect.Value.Call the slice was packed into a new slice; wrapped by
+    deferCallSlice it reaches the variadic parameter as it is -/
+theorem defer_spread_regression (xs : RepL) :
+    packDeferY preRepair true true true 0 [.tuple xs] = [.tuple (.cons (.tuple xs) .nil)] ∧
+    packDeferY preRepair false true true 0 [.tuple xs] = [.tuple (.cons (.tuple xs) .nil)] ∧
+    packDeferY E true true true 0 [.tuple xs] = [.tuple xs] ∧ packDeferY E false true true 0 [.tuple xs] = [.tuple xs] ∧
+    goPack true true 0 [.tuple xs] = [.tuple xs] := ⟨rfl, rfl, rfl, rfl, rfl⟩
+
+/-- the unrepaired choices do not satisfy the full statement (so the theorems above depend on the extracted arms) -/
+theorem pre_repair_fails : ¬ VariadicPackFull (packBinY preRepair) ∧ ¬ VariadicPackFull (packDeferY preRepair true) := by
+  constructor
+  · intro h
+    have := h true false 1 [.int 5] (by decide)
+    rw [variadic_empty_regression.1, variadic_empty_regression.2.2.1] at this
+    simp at this
+  · intro h
+    have := h true true 0 [.tuple .nil] (by decide)
+    rw [(defer_spread_regression .nil).1, (defer_spread_regression .nil).2.2.2.2] at this
+    simp at this
 
 /-- **The explicit packing loop of `call`** (script → script, the twin of every case), by induction over the argument
     list: for every number of fixed parameters and every list of extra arguments none of which has the variadic
@@ -514,6 +603,37 @@ example : wrapperCall E { numRet := 1, params := [.plain], nLocals := 0, body :=
 /-- mutation witness: with `fr.data[1:numRet+1]` the wrapper returns the argument cell instead of the result -/
 example : wrapperCallWith 1 (.add .base (.lit 1)) E { numRet := 1, params := [.plain], nLocals := 0, body := fun _ fr => setAt fr 0 (.int 1) }
     (fun _ _ => []) [.int 42] = [.int 42] := rfl
+
+/-! ### the wrapper of a method: the receiver -/
+
+/-- **The receiver is bound when the wrapper is made** (`wrapRecvAtCreation`, regenerated; repair 3081633): for every method
+    shape (any results, any further parameters, any locals), every body and every argument list, calling the wrapper of a
+    method — a method value `mv := x.M` called later or handed to the host, `defer x.M(…)`, `go x.M(…)` — is the in-script
+    call with the receiver the expression had WHEN THE WRAPPER WAS MADE, whatever the variable holds at the time of the call. -/
+theorem method_wrapper_binds_receiver (d : FnDef) (ps : List PKind) (hp : d.params = .plain :: ps)
+    (call : Rep → List Rep → List Rep) (recvMade recvNow : Rep) (ins : List Rep) :
+    methodWrapperCall E d call recvMade recvNow ins = innerCall d call (recvMade :: ins) := by
+  have hlen : d.numRet + 1 + ps.length ≤ (setAt (List.replicate d.frameLen Rep.nil) d.numRet recvMade).length := by
+    simp [setAt, FnDef.frameLen, hp]; omega
+  simp only [methodWrapperCall, innerCall, E, Expected.C07.facts, IExpr.eval, if_true, List.drop_zero, Nat.sub_zero, hp,
+    List.tail_cons, fillArgs, copyArg, Bool.false_and, Bool.false_eq_true, if_false]
+  rw [fillArgs_skip ps ins _ (d.numRet + 1) hlen]
+
+theorem method_wrapper_generated (d : FnDef) (ps : List PKind) (hp : d.params = .plain :: ps)
+    (call : Rep → List Rep → List Rep) (recvMade recvNow : Rep) (ins : List Rep) :
+    methodWrapperCall Generated.C07.facts d call recvMade recvNow ins = innerCall d call (recvMade :: ins) := by
+  rw [facts_tie]; exact method_wrapper_binds_receiver d ps hp call recvMade recvNow ins
+
+/-- a method `func (r T) Get() T { return r }` -/
+def getRecv : FnDef :=
+  { numRet := 1, params := [.plain], nLocals := 0, body := fun _ fr => setAt fr 0 (fr.getD 1 .nil) }
+
+/-- late binding (the receiver read inside the reflect.MakeFunc literal, as before 3081633): `mv := x.Get; x = 2; mv()`
+    yields 2, the contract 1 -/
+theorem late_receiver_witness :
+    methodWrapperCall { E with wrapRecvAtCreation := false } getRecv (fun _ _ => []) (.int 1) (.int 2) [] = [.int 2] ∧
+    methodWrapperCall E getRecv (fun _ _ => []) (.int 1) (.int 2) [] = [.int 1] ∧
+    innerCall getRecv (fun _ _ => []) [.int 1] = [.int 1] := ⟨rfl, rfl, rfl⟩
 
 /-! ### one wrapper value, nested invocations -/
 
